@@ -207,6 +207,12 @@ func (m *Model) Expected(p world.Path, winners map[string]string) Expectation {
 		return Expectation{Kind: ExpFree, Reason: "orphaned"}
 	}
 	if _, ok := m.Ever[ps]; ok {
+		if n := m.SI.Node(p); n != nil && n.Kind == world.KContainer && n.Presence && m.everBelow(p) {
+			// On a device a presence container with descendants cannot lose its presence without losing them.
+			// When the marker's last definer leaves while descendants remain, the container legitimately stays and
+			// is afterwards indistinguishable from unhandled running config: the marker is left unconstrained.
+			return Expectation{Kind: ExpFree, Reason: "presence-with-descendants"}
+		}
 		return Expectation{Kind: ExpAbsent, Reason: "dead"}
 	}
 	for _, ep := range p.ListEntryPrefixes() {
@@ -254,4 +260,19 @@ func (m *Model) AllPaths(dev world.DevState) map[string]world.Path {
 		out[k] = l.Path
 	}
 	return out
+}
+
+// everBelow: was any leaf strictly below p ever defined by an intent or part of the initial running config?
+func (m *Model) everBelow(p world.Path) bool {
+	for _, q := range m.Ever {
+		if len(q) > len(p) && q.HasPrefix(p) {
+			return true
+		}
+	}
+	for _, l := range m.R0 {
+		if len(l.Path) > len(p) && l.Path.HasPrefix(p) {
+			return true
+		}
+	}
+	return false
 }
